@@ -748,7 +748,7 @@ class Spec:
         X.old_stack.append(snap)
         try:
             for gname, gtext in ct.ghost_results.items():
-                if isinstance(gtext, tuple) and gtext[0] in ('local', 'expr'):
+                if isinstance(gtext, tuple) and gtext[0] in ('local', 'expr', 'named'):
                     env[gname] = X.fresh(gtext[2], 'gr_' + gname)
                     continue
                 if isinstance(gtext, Type):
@@ -969,6 +969,7 @@ class FunctionRun:
         ct = spec.contracts[self.qual]
         m, fn = spec.function_for(self.qual)
         X.lemma_mode = getattr(ct, 'is_lemma', False)
+        X.assume_fresh_ids = getattr(ct, 'assume_fresh_ids', False)
         cls = getattr(fn, '_cls', None)
         clsq = cls._qual if cls is not None else None
         fr = Frame(m, cls=clsq, fn=fn)
@@ -1002,6 +1003,9 @@ class FunctionRun:
         snap = X.snapshot()
         X.entry_env = env
         X.entry_snap = snap
+        yh = getattr(spec, 'yield_hooks', {}).get(self.qual.split('#')[0])
+        if yh is not None:
+            X.yield_acc = lambda v, yh=yh: yh(X, v)
         X.rely_objs = []
         for rn in getattr(ct, 'rely', None) or ['self']:
             o = env.get(rn)
@@ -1092,6 +1096,9 @@ class FunctionRun:
         """The ghost result was not produced on this path (loop not reached):
         any enumeration of the declared set will do."""
         gr = ct.ghost_results[gname]
+        if isinstance(gr, tuple) and gr[0] == 'named':
+            g = X.named_ghosts.get(gr[1])
+            return g if g is not None else X.fresh(gr[2], 'gr_' + gname)
         if isinstance(gr, tuple) and gr[0] == 'expr':
             # witness chosen by the callee: a spec expression over the exit state
             X.old_stack.append(snap)
